@@ -6,6 +6,7 @@ starting with the sentence-begin node) and `confirm` / `applyEntry` of Chokan.Mo
 -/
 import Chokan.Model.Server
 import Chokan.Lemmas.Kkc
+import Chokan.Props.C07
 
 namespace Chokan.Props.C20
 open Chokan.Server Chokan.Kkc Chokan.Dic
@@ -71,5 +72,21 @@ theorem C20_applied (c : Cfg) (s : State) (word reading : Str) (rest : List Entr
       s'.userDict = s.userDict ++ [⟨word, reading, .noun .common⟩] ∧
       s'.dict = addStdWord c.alpha s.dict ⟨word, reading, .noun .common⟩ := by
   simp [applyEntry, hp, mergeEntry, entryToWords, toForms]
+
+/-- **Once applied, the compound converts as a single word**: after the updater has applied the queued
+compound (a common noun whose non-empty reading is spelled in the trie alphabet), the compound's
+reading — and every input that begins with it — gets the compound's written form as a candidate (then
+followed by the rest of the input), in every context, unless the list is cut at `n`. -/
+theorem C20_compound_converts (c : Cfg) (s : State) (word reading : Str) (rest : List Entry) (tail : Str)
+    (ctx : Ctx) (f : Freq) (n : Nat) (hn : 1 ≤ n)
+    (hp : s.pending = ⟨word, reading, .noun .common⟩ :: rest) (hd : Dict.WF s.dict)
+    (hne : reading ≠ []) (ha : inAlpha c.alpha reading = true) :
+    ∃ s', applyEntry c s = some s' ∧ ∃ fuel0 R, ∀ fuel, fuel0 ≤ fuel →
+      getCandidates genTables (reading ++ tail) s'.dict ctx f n fuel = some R ∧
+      (word ++ tail ∈ R.map Cand.text ∨ R.length = n) := by
+  obtain ⟨s', hs', _, _, hdict⟩ := C20_applied c s word reading rest hp
+  refine ⟨s', hs', ?_⟩
+  rw [hdict]
+  exact C07.C07_registered_word_offered c.alpha s.dict ⟨word, reading, .noun .common⟩ tail ctx f n hn hd hne ha rfl
 
 end Chokan.Props.C20
